@@ -833,13 +833,14 @@ def watcher_scenarios(seed, tier):
     import random
     rng = random.Random(seed * 167 + 3)
     dirs = ["hidi-config/factory/gamepad/", "hidi-config/factory/keyboard/", "hidi-config/user/gamepad/", "hidi-config/user/keyboard/"]
-    toml = ["a.toml", "b.toml", "c.toml", "UPPER.TOML", "with space.toml"]
+    toml = ["a.toml", "b.toml", "c.toml", "UPPER.TOML", "with space.toml", "Mixed.Toml", "x.tOmL"]
     other = ["notes.txt", "a.toml.bak", "README", "atoml", "x.tom", "a.toml~", ".toml.swp"]
     scs = []
     def add(ops):
         scs.append({"id": len(scs) + 1, "ops": ops})
     W = lambda f: {"op": "write", "file": f}
     add([W(dirs[3] + "a.toml")])
+    add([W(dirs[0] + "Mixed.Toml"), W(dirs[1] + "x.tOmL"), W(dirs[2] + "UPPER.TOML")])          # any letter case of the extension
     add([W(d + "a.toml") for d in dirs])
     add([W(dirs[0] + n) for n in other])
     add([W(dirs[2] + "a.toml")] * 5)                                  # burst on one file
@@ -1100,6 +1101,16 @@ def c17(pid, tier, replay):
         w1 = T("KEY_F12") + T("KEY_F11") + [{"ev": "press", "k": "KEY_A"}] + T("KEY_F12") + T("KEY_F2") + [{"ev": "release", "k": "KEY_A"}] \
             + T("KEY_F6") + T("KEY_F11") + [{"ev": "disconnect"}]
         groups.append([{"cfg": one_map, "colors": LED_COLORS, "layout": LED_LAYOUTS[i], "walks": [w1]} for i in (0, 2)])
+        # the mapping called "Control" is all white (named deviation in Led!BaseColour): entered and left at run time,
+        # as the default mapping and not - directed walks plus a sample of the tour walks on the renamed configuration
+        for dmap in (1, 2):
+            ctl = _copy.deepcopy(d["cfg"])
+            ctl["maps"][1]["name"] = "Control"
+            ctl["dMap"] = dmap
+            wc = T("KEY_F12") + [{"ev": "press", "k": "KEY_A"}] + T("KEY_F11") + T("KEY_F2") + T("KEY_F12") + [{"ev": "release", "k": "KEY_A"}] \
+                + T("KEY_F11") + T("KEY_F12") + T("KEY_F1") + [{"ev": "press", "k": "KEY_D"}, {"ev": "disconnect"}]
+            sample = [w for w in d["walks"][dmap::max(1, len(d["walks"]) // 12)]][:12]
+            groups.append([{"cfg": ctl, "colors": LED_COLORS, "layout": LED_LAYOUTS[dmap - 1], "walks": [wc] + sample}])
     def one(g):
         t, _ = run_led(scr, g)
         return t, vlib.validate_trace(scr, "LedTrace", t, xmx="3g")
